@@ -244,10 +244,11 @@ def alter(bundle, alteration, sec_type=11):
 _PKI = {}
 
 
-def pki(node_id, curve_name='p256', which=0):
-    ''' (CA certificate, end-entity certificate naming ``node_id`` as bundle EID, end-entity private key) from the
-    committed fixture file (fixed test keys: runs do not depend on fresh key material). '''
-    key = (node_id, curve_name, which)
+def pki(node_id, curve_name='p256', which=0, identity='own'):
+    ''' (CA certificate, end-entity certificate, end-entity private key) from the committed fixture file (fixed test
+    keys: runs do not depend on fresh key material).  identity: 'own' = the certificate names ``node_id`` as bundle EID,
+    'none' = it carries no bundle EID at all, 'other' = it names dtn://other/ (all three issued by the same CA). '''
+    key = (node_id, curve_name, which, identity)
     if key in _PKI:
         return _PKI[key]
     import json
@@ -258,21 +259,20 @@ def pki(node_id, curve_name='p256', which=0):
     entry = json.load(open(path))['%s-%d' % (curve_name, which)]
     if entry['node_id'] != node_id:
         raise ValueError('fixture PKI names %s' % entry['node_id'])
-    _PKI[key] = (x509.load_pem_x509_certificate(entry['ca'].encode()), x509.load_pem_x509_certificate(entry['ee'].encode()),
-                 serialization.load_pem_private_key(entry['ee_key'].encode(), None))
+    sfx = {'own': '', 'none': '_noid', 'other': '_other'}[identity]
+    _PKI[key] = (x509.load_pem_x509_certificate(entry['ca'].encode()), x509.load_pem_x509_certificate(entry['ee' + sfx].encode()),
+                 serialization.load_pem_private_key(entry['ee%s_key' % sfx].encode(), None))
     return _PKI[key]
 
 
 def generate_pki(node_id, curve_name='p256', which=0):
-    ''' How fixtures/pki.json was made. '''
-    key = (node_id, curve_name, which)
+    ''' How fixtures/pki.json is made (tools/mkpki.py): one CA and three end-entity certificates. '''
     import datetime
     from cryptography import x509
-    from cryptography.hazmat.primitives import hashes
+    from cryptography.hazmat.primitives import hashes, serialization as ser
     from cryptography.hazmat.primitives.asymmetric import ec
     curve = {'p256': ec.SECP256R1(), 'p384': ec.SECP384R1()}[curve_name]
     ca_key = ec.generate_private_key(curve)
-    ee_key = ec.generate_private_key(curve)
     ca_name = x509.Name([x509.NameAttribute(x509.oid.NameOID.COMMON_NAME, 'verif CA %d' % which)])
     nbefore, nafter = datetime.datetime(2020, 1, 1), datetime.datetime(2040, 1, 1)
     ca = (x509.CertificateBuilder().subject_name(ca_name).issuer_name(ca_name).public_key(ca_key.public_key()).serial_number(10 + which)
@@ -282,25 +282,30 @@ def generate_pki(node_id, curve_name='p256', which=0):
           .add_extension(x509.SubjectKeyIdentifier.from_public_key(ca_key.public_key()), critical=False)
           .add_extension(x509.AuthorityKeyIdentifier.from_issuer_public_key(ca_key.public_key()), critical=False)
           .sign(ca_key, hashes.SHA256()))
-    text = node_id.encode('ascii')
-    other = x509.OtherName(x509.oid.ObjectIdentifier('1.3.6.1.5.5.7.8.11'), bytes([0x16, len(text)]) + text)
-    ee = (x509.CertificateBuilder().subject_name(x509.Name([x509.NameAttribute(x509.oid.NameOID.COMMON_NAME, 'end-entity')]))
-          .issuer_name(ca.issuer).public_key(ee_key.public_key()).serial_number(20 + which)
-          .not_valid_before(nbefore).not_valid_after(nafter)
-          .add_extension(x509.BasicConstraints(ca=False, path_length=None), critical=True)
-          .add_extension(x509.SubjectAlternativeName([other]), critical=False)
-          .add_extension(x509.KeyUsage(True, False, False, False, False, False, False, False, False), critical=False)
-          .add_extension(x509.ExtendedKeyUsage([x509.oid.ObjectIdentifier('1.3.6.1.5.5.7.3.35')]), critical=False)
-          .add_extension(x509.SubjectKeyIdentifier.from_public_key(ee_key.public_key()), critical=False)
-          .add_extension(x509.AuthorityKeyIdentifier.from_issuer_public_key(ca_key.public_key()), critical=False)
-          .sign(ca_key, hashes.SHA256()))
-    _PKI[key] = (ca, ee, ee_key)
-    return _PKI[key]
+    out = {'node_id': node_id, 'ca': ca.public_bytes(ser.Encoding.PEM).decode()}
+    for serial, (sfx, eid) in enumerate((('', node_id), ('_noid', None), ('_other', 'dtn://other/'))):
+        ee_key = ec.generate_private_key(curve)
+        builder = (x509.CertificateBuilder().subject_name(x509.Name([x509.NameAttribute(x509.oid.NameOID.COMMON_NAME, 'end-entity' + sfx)]))
+                   .issuer_name(ca.issuer).public_key(ee_key.public_key()).serial_number(20 + 10 * which + serial)
+                   .not_valid_before(nbefore).not_valid_after(nafter)
+                   .add_extension(x509.BasicConstraints(ca=False, path_length=None), critical=True)
+                   .add_extension(x509.KeyUsage(True, False, False, False, False, False, False, False, False), critical=False)
+                   .add_extension(x509.ExtendedKeyUsage([x509.oid.ObjectIdentifier('1.3.6.1.5.5.7.3.35')]), critical=False)
+                   .add_extension(x509.SubjectKeyIdentifier.from_public_key(ee_key.public_key()), critical=False)
+                   .add_extension(x509.AuthorityKeyIdentifier.from_issuer_public_key(ca_key.public_key()), critical=False))
+        if eid is not None:
+            text = eid.encode('ascii')
+            other = x509.OtherName(x509.oid.ObjectIdentifier('1.3.6.1.5.5.7.8.11'), bytes([0x16, len(text)]) + text)
+            builder = builder.add_extension(x509.SubjectAlternativeName([other]), critical=False)
+        ee = builder.sign(ca_key, hashes.SHA256())
+        out['ee' + sfx] = ee.public_bytes(ser.Encoding.PEM).decode()
+        out['ee%s_key' % sfx] = ee_key.private_bytes(ser.Encoding.PEM, ser.PrivateFormat.PKCS8, ser.NoEncryption()).decode()
+    return out
 
 
-def give_signing_identity(node, node_id, curve_name='p256'):
+def give_signing_identity(node, node_id, curve_name='p256', identity='own'):
     from pycose.keys import keyops
-    ca, ee, ee_key = pki(node_id, curve_name)
+    ca, ee, ee_key = pki(node_id, curve_name, 0, identity)
     ctx = node.bpsec
     ctx._ca_certs = [ca]
     ctx._cert_chain = [ee]
